@@ -184,7 +184,7 @@ func main() {
 	}
 	budget := 120 * time.Second
 	if *tier == "thorough" {
-		budget = 900 * time.Second
+		budget = 1800 * time.Second
 	}
 	if *budgetS > 0 {
 		budget = time.Duration(*budgetS) * time.Second
